@@ -221,7 +221,9 @@ class Ctx:
         ev = {"property_id": self.pid, "tier": self.tier, "seed": vlib.SEED, "level": level, "coverage": cov,
               "assumptions": self.assumptions, "wall_s": round(time.time() - self.t0, 1), "violations": len(self.violations)}
         # evidence is only ever written from runs against /repo itself; binding demonstrations on scratch copies go elsewhere
-        evdir = os.path.join(vlib.VERIF, "evidence" if os.path.realpath(vlib.REPO) == "/repo" else ".cache/evidence-scratch")
+        # (stages that are not properties of properties.jsonl - the X.. extension stages run on their own - never write into evidence/)
+        is_prop = bool(re.match(r"^C\d\d$", self.pid))
+        evdir = os.path.join(vlib.VERIF, "evidence" if os.path.realpath(vlib.REPO) == "/repo" and is_prop else ".cache/evidence-scratch")
         os.makedirs(evdir, exist_ok=True)
         with open(os.path.join(evdir, self.pid + ".json"), "w") as f:
             json.dump(ev, f, indent=1, default=str)
